@@ -9,8 +9,8 @@ VERIF = os.path.dirname(os.path.dirname(os.path.dirname(os.path.abspath(__file__
 REPO = os.environ.get("VERIF_REPO", "/repo")
 BUILD = os.path.join(VERIF, ".build")
 SPEC = os.path.join(VERIF, "spec")
-REPLAYS = os.path.join(VERIF, "replays")
-EVIDENCE = os.path.join(VERIF, "evidence")
+REPLAYS = os.environ.get("VERIF_REPLAYS_DIR") or os.path.join(VERIF, "replays")
+EVIDENCE = os.environ.get("VERIF_EVIDENCE_DIR") or os.path.join(VERIF, "evidence")   # seedtest redirects it
 GUARD = "azure_guestproxyagent_verif"
 
 
